@@ -319,7 +319,7 @@ def r3(run):
     unreg_edges = []
     for bb, si in sv.switches():
         pass
-    sorts = [c for c in sv.calls() if c.bb in sv.live_blocks() and c.fn.split("::")[-1] in ("sort_by_key", "sort_unstable_by_key", "sort_by_cached_key")]
+    sorts = [c for c in sv.calls() if c.bb in sv.live_blocks() and c.fn.split("::")[-1] in ("sort_by_key", "sort_unstable_by_key", "sort_by_cached_key", "sort_by", "sort_unstable_by")]
     run.exact("sort_by_key on the survivors", len(sorts), 1, sv.sp)
     for c in sorts:
         clo = strip(c.arg(1))
@@ -327,7 +327,19 @@ def r3(run):
         ok = False
         if cb is not None:
             run.touch(cb)
+            by_cmp = c.fn.split("::")[-1] in ("sort_by", "sort_unstable_by")
             for (bb, e, raw) in cb.return_defs():
+                if by_cmp:
+                    # `sort_by(|a, b| a.register_frame.id.cmp(&b.register_frame.id))`: ascending = the first parameter's id on the left
+                    x = strip(e)
+                    if x[0] == "call" and x[1].fn in ("core::cmp::Ord::cmp",) and len(x[2]) == 2:
+                        def side(y):
+                            args_ = [z[1] for z in walk(y) if z[0] == "arg"]
+                            return (q.last_field(y) == "id" and (any(z[0] == "field" and z[2] == "register_frame" for z in walk(y)) or True), args_[0] if len(set(args_)) == 1 else None)
+                        (lo, la), (ro, ra) = side(x[2][0]), side(x[2][1])
+                        if lo and ro and la == 2 and ra == 3:
+                            ok = True
+                    continue
                 if q.last_field(e) == "id" and any(y[0] == "field" and y[2] == "register_frame" for y in walk(e)):
                     ok = True
                 # the survivors are the `.register` frames themselves: ordered by the element's own id
